@@ -362,12 +362,32 @@ def check_c14(prog, rep, tier, cfg):
     cp = prog.body(P + "consolidate_pass_lines")
     if rep.check(cp is not None, R, "anchor:consolidate_pass_lines", "consolidate_pass_lines not found"):
         from panic import dominating_conditions
-        # the only `continue` (skip) is under tokens.is_empty()
-        ins = cp.calls_to("std::collections::hash::map::HashMap::entry")
-        ok = len(ins) == 1
-        if ok:
-            conds = dominating_conditions(cp, ins[0].bb)
-            ok = any(c[0] == "call" and c[1].endswith("is_empty") and c[3] is False and "tokens" in canon(cp, c[2][0]) for c in conds) and len([c for c in conds if c[0] in ("call", "cmp")]) == 1
+        # the only `continue` (skip) is under tokens.is_empty(): path-wise over one iteration of the loop over the pass' lines — a path on which
+        # the line has tokens registers it in the map (entry / insert on a miss) or finds it there (get -> Some: merged with an equal line)
+        ok = False
+        loops_c = [(h, L) for h, L in cp.loops().items() if any(c.bb == h and (c.callee or "").endswith("Iterator::next") for c in cp.calls())]
+        if loops_c:
+            h, L = max(loops_c, key=lambda x: len(x[1]))
+            nx = [c for c in cp.calls() if c.bb == h and (c.callee or "").endswith("Iterator::next")][0]
+            tt = cp.blocks[nx.t["target"]]["term"]
+            some = ([t_ for v, t_ in tt.get("targets", []) if v == 1] or [tt.get("otherwise")])[0]
+            try:
+                tbc = Table(prog, cp, start=some, stop={h}, inline=1)
+                ok = bool(tbc.rows)
+                n_reg = 0
+                for (cons, res), calls in zip(tbc.rows, tbc.calls):
+                    empty = [c2[2] for c2 in cons if c2[0] == "cond" and "is_empty(" in str(c2[1]) and "tokens" in str(c2[1])]
+                    names = [n_ for n_, _a in calls]
+                    registered = any(n_.endswith("HashMap::entry") or n_.endswith("HashMap::insert") for n_ in names) or \
+                        any(c2[0] == "is" and c2[2] == "Some" and "get(" in str(c2[1]) and "arg1" in str(c2[1]) for c2 in cons)
+                    if empty and empty[0] != 0:
+                        continue                      # a line without tokens: skipped
+                    if not empty or not registered:
+                        ok = False
+                    n_reg += 1 if registered else 0
+                ok = ok and n_reg >= 1
+            except TooComplex:
+                ok = False
         rep.check(ok, R, "only-empty-lines-skipped", "consolidate_pass_lines drops lines for a reason other than `tokens.is_empty()`", instance={"skip_condition": "line.tokens.is_empty()"})
     # ---------------------------------------------------------------- C14.e who mutates line token lists
     contexts_end_only_by_their_predicate(prog, rep, "C14.g")
